@@ -1,9 +1,7 @@
-import re
 import string
-import functools
 from typing import Any, Union
 
-from flamapy.core.models.ast import ASTOperation
+from flamapy.core.models.ast import ASTOperation, Node
 from flamapy.core.transformations import ModelToText
 from flamapy.metamodels.fm_metamodel.models import (
     Constraint,
@@ -151,18 +149,30 @@ class UVLWriter(ModelToText):
         return result
 
     @staticmethod
-    def _substitute_operator(str_constraint: str,
-                             operator: ASTOperation,
-                             new_operator: str) -> str:
-        return re.sub(rf"\b{operator.value}\b", new_operator, str_constraint)
+    def serialize_constraint(ctc: Constraint) -> str:
+        return UVLWriter.serialize_node(ctc.ast.root)
 
     @staticmethod
-    def serialize_constraint(ctc: Constraint) -> str:
-        str_constraint = ctc.ast.pretty_str()
-        return functools.reduce(lambda acc, op: UVLWriter._substitute_operator(acc,
-                                                                               op,
-                                                                               UVL_OPERATORS[op]),
-                                ASTOperation, str_constraint)
+    def serialize_node(node: Node) -> str:
+        """Write the expression tree directly (same layout as AST.pretty_str()): names and
+        string literals are never touched by operator substitution and are quoted by the
+        rules of UVL."""
+        if node.is_term():
+            return safename(node.data) if isinstance(node.data, str) else str(node.data)
+        operator = UVL_OPERATORS[node.data]
+        if node.is_aggregate_op():
+            operands = [operand for operand in (node.left, node.right) if operand is not None]
+            return f'{operator}({", ".join(UVLWriter.serialize_node(o) for o in operands)})'
+        if node.is_unary_op():
+            return f'{operator} {UVLWriter.serialize_operand(node.left)}'
+        left = UVLWriter.serialize_operand(node.left)
+        right = UVLWriter.serialize_operand(node.right)
+        return f'{left} {operator} {right}'
+
+    @staticmethod
+    def serialize_operand(node: Node) -> str:
+        result = UVLWriter.serialize_node(node)
+        return f'({result})' if node.is_op() and node.is_binary_op() else result
 
 
 def safename(name: str) -> str:
